@@ -880,7 +880,7 @@ package hermes
 //@   requires horizon: 1 <= horizon && horizon <= 10
 //@   requires density: 1 <= g.LD[horizon-1] && g.LD[horizon-1] <= 5
 //@   ensures table: isnil(err) ==> g.PRGES[horizon-1] == tabpor + KRG/100 && g.NORMFK[horizon-1] == tabfk && g.FELDW[horizon-1] == tabfk + KRR/100 && g.LIM[horizon-1] == tablim
-//@   ensures bonus: 0 <= KRG && KRG <= 14 && 0-2 <= KRR && KRR <= 13.5
+//@   ensures bonus: isnil(err) ==> 0 <= KRG && KRG <= 14 && 0-2 <= KRR && KRR <= 13.5
 
 // ---------------------------------------------------------------------------
 // C10  schedules: after reading, events sharing a day are moved to the first free day at or after their date, which makes
